@@ -51,7 +51,7 @@ func flushPools() {
 // happens-before edges between tasks at every hand-over and hide every data
 // race of the code under test from the race detector.
 
-const maxTasks = 64
+const maxTasks = 512
 
 const (
 	stSerial = iota // never pre-empt; on task end the tape picks the next task
@@ -100,7 +100,14 @@ type Sched struct {
 	swN      int
 	waiting  [maxTasks]bool    // inside a cooperative wait (lock, channel, WaitGroup): poll again later
 	streak   [maxTasks]int64   // consecutive polls without a step of its own
+	draining bool              // the run is over: goroutines the code under test left behind are being run out
+	leaked   int
 }
+
+// abandoned is panicked through a goroutine of the code under test that can never proceed
+// (it waits for a channel / lock nobody will touch again) once everything else is finished:
+// in a real process it would simply stay parked for ever - a leak, not a failure.
+type abandoned struct{}
 
 // global (per worker process) reach counters; norace
 var (
@@ -204,7 +211,7 @@ func goHook(run func()) {
 	}
 	id := s.addTask()
 	if id < 0 {
-		unsupportedExit("the code under test has more than 64 goroutines alive at once")
+		unsupportedExit("the code under test has more than 512 goroutines alive at once")
 	}
 	spawnedTotal++
 	s.children.Add(1)
@@ -215,7 +222,9 @@ func goHook(run func()) {
 		defer func() {
 			// a panic in a goroutine the library started would kill the whole process
 			if p := recover(); p != nil {
-				noteChildPanic(p)
+				if _, leak := p.(abandoned); !leak {
+					noteChildPanic(p)
+				}
 			}
 		}()
 		run()
@@ -226,12 +235,28 @@ func goHook(run func()) {
 // around every run so that code which starts goroutines or blocks outside an
 // explicit Run() is still under the simulator's control.
 func newAmbient(st *Stream) *Sched {
-	s := &Sched{n: 1, token: 0, strat: Strategy{Kind: stSerial}, st: st, maxSteps: 1 << 40, active: true, ambient: true}
+	s := &Sched{n: 1, n0: 1, token: 0, strat: Strategy{Kind: stSerial}, st: st, maxSteps: 1 << 40, active: true, ambient: true}
 	return s
 }
 
 // drain lets every goroutine the code under test left behind run to completion.
 //
+// initialDone: every task the scheduler started with has finished (for the ambient
+// scheduler: the main goroutine is only draining).
+//
+//go:norace
+func (s *Sched) initialDone() bool {
+	if s.ambient {
+		return s.draining
+	}
+	for i := 0; i < s.n0 && i < s.n; i++ {
+		if !s.done[i] {
+			return false
+		}
+	}
+	return true
+}
+
 //go:norace
 func (s *Sched) pending() bool {
 	for i := 1; i < s.n; i++ {
@@ -246,6 +271,8 @@ func (s *Sched) drain() {
 	if !s.ambient {
 		return
 	}
+	s.draining = true
+	defer func() { s.draining = false }()
 	for guard := 0; s.pending() && guard < 1<<20; guard++ {
 		s.handTo(0, s.pickOther(0), s.lastSite[0])
 	}
@@ -253,7 +280,7 @@ func (s *Sched) drain() {
 }
 
 func NewSched(n int, strat Strategy, st *Stream, maxSteps int64) *Sched {
-	s := &Sched{n: n, token: -1, strat: strat, st: st, maxSteps: maxSteps}
+	s := &Sched{n: n, n0: n, token: -1, strat: strat, st: st, maxSteps: maxSteps}
 	return s
 }
 
@@ -399,6 +426,10 @@ func (s *Sched) block() {
 	me := s.token
 	s.steps++
 	s.streak[me]++
+	if me >= s.n0 && s.n0 > 0 && s.initialDone() && (s.streak[me] > 2000 || s.runnableCount() == 1) {
+		s.leaked++
+		panic(abandoned{})
+	}
 	if s.streak[me] > 200000 {
 		// nobody ever made the condition true: a deadlock of the code under test, or a
 		// blocking rendezvous on an unbuffered channel, which cooperative polling cannot complete
